@@ -23,7 +23,7 @@ from peers import tls_a
 ID = "C18"
 LEVEL = "exploration"
 ENGINE = "simkit/proxy-world"
-QUICK_RUNS = 6000
+QUICK_RUNS = 12000
 QUICK_BUDGET_S = 150
 THOROUGH_BUDGET_S = 900
 CHUNK = 50
@@ -47,7 +47,10 @@ ASSUMPTIONS = ["'upstream protocol known' = tls_established_server for this clie
                "an origin that negotiated no protocol counts as known-none: the client must then get none",
                "a failed client handshake counts as 'none selected'",
                "setting server.alpn_offers from an addon is a supported way to influence the upstream offer list "
-               "(TlsConfig.tls_start_server only fills it when it is empty)"]
+               "(TlsConfig.tls_start_server only fills it when it is empty)",
+               "a client TLS stack that aborts with BAD_EXTENSION was answered with a protocol outside its offer list",
+               "the first TCP segment of a ClientHello is at least 3 bytes long (documented assumption of "
+               "net.tls.starts_like_tls_record)"]
 EXPECTED_PROBES = ["judged_inner", "judged_outer", "upstream_known", "upstream_unknown", "upstream_known_none",
                    "offers_empty", "selected_none", "selected_h2", "selected_h3", "selected_h11", "selected_h10",
                    "selected_h09", "selected_unknown", "http2_off", "http2_off_offered_h2", "forced_not_offered",
